@@ -8,6 +8,7 @@ CONSTANTS
   RejectTrailing = TRUE
   ValidateFiles = TRUE
   CompressionTransparent = TRUE
+  ZeroCRCCompared = TRUE
 CONSTRAINT HW
 POSTCONDITION Accepted
 CHECK_DEADLOCK FALSE
